@@ -5,7 +5,7 @@ From V.lib Require Import Base.
 From V.c19 Require Import C19Model C19Spec C19InvProofs C19TrackProofs C19DescProofs C19ElngProofs C19ScopeProofs C19Witness.
 From V.c19 Require Import C19RecModel C19RecProofs C19RecLinkProofs.
 From V.c01 Require Import C01Codec C01Model.
-From V.c19 Require Import C19TreeModel C19TreeProofs C19TreeScopeProofs C19LeafProofs.
+From V.c19 Require Import C19TreeModel C19TreeProofs C19TreeScopeProofs C19LeafProofs C19PrintParseProofs C19RoundtripProofs.
 
 
 (* For EVERY op sequence (any arguments, including calls that return an error or panic; the history stops
@@ -331,11 +331,41 @@ Theorem C19_built_fragmented_trex :
 Proof. exact built_all. Qed.
 Print Assumptions C19_built_fragmented_trex.
 
+(* C19_roundtrip, in the C01 box model, for EVERY op sequence and every SPS parser: whenever the values of the final
+   state fit the fields of their boxes (args_okb: track ids, timescales, dimensions, profile bytes in the ranges of
+   their Go types; at most 31 SPS / 255 PPS of less than 2^16 bytes; hvcC values in their bit fields; language tags
+   other than three letters have two or more non-NUL bytes) and the encoded sizes fit 32 bits (C01's enc_fits, what
+   EncodeHeader requires), the init segment encodes, C01's model of the box loop of DecodeFile returns a tree EQUAL to
+   the one encoded (every header, every field of every box, the reserved bytes the encoders write), the decoded file
+   passes File.AddChild's fragmented-init test as soon as there is a track, and GetTrex finds a trex for every track id.
+   Relative to: C01's model of the Go box codec (tied to the code by C01's correspondence and, for API-built inits, by
+   C19's byte comparison of InitSegment.Encode); esds, dac3, dec3, wvtt and stpp are opaque payloads in that model
+   (their typed decoding is evaluated by the search; stpp and the avcC/hvcC records have their own theorems);
+   decoding a media fragment against the init is not modelled beyond the trex lookup (search). *)
+Theorem C19_roundtrip :
+  forall (avc_parse : avc_parser) (hevc_parse : hevc_parser) (ops : list op),
+    N.of_nat (length ops) < 4294967295 ->
+    let s := snd (run avc_parse hevc_parse ops) in
+    args_okb s = true -> forall ts, tree_of s = Some ts -> forallb enc_fits ts = true ->
+    exists bs, encode_seq false ts = Ok bs /\ decode_file bs = Ok ts
+      /\ (traks s <> [] -> is_fragmented_init ts = true)
+      /\ (forall t, In t (traks s) -> has_trex ts (tk_id t) = true).
+Proof. exact roundtrip_all. Qed.
+Print Assumptions C19_roundtrip.
+
+(* the converse of C01_tree for constructed trees: every tree made of well-formed parts (wf) is returned by C01's
+   decode_box from the bytes C01's encoder writes for it, with any fuel of at least fuel_of t *)
+Theorem C19_print_then_parse :
+  forall t, wf t ->
+    exists enc, raw_box false t = Ok enc /\ lenN enc = size_box t /\ 8 <= size_box t /\
+      forall f r2, (fuel_of t <= f)%nat -> decode_box f (enc ++ r2) = Ok (t, r2).
+Proof. exact pp_box. Qed.
+Print Assumptions C19_print_then_parse.
+
 (* C19_roundtrip over a COMPLETE SMALL SCOPE (271 histories, enumerated in C19TreeScopeProofs.small_scope and
    decided inside Coq): one or two tracks over the seven media types, 3-letter / 2-letter / BCP-47 tags, each track
    with none or one of the fitting descriptor sequences (AVC, HEVC, AVC then HEVC, AAC, AC-3, E-AC-3, wvtt, stpp).
-   The full statement (every op sequence) is NOT proved: it needs a print-then-parse lemma for every box kind of
-   C01's decoder; on the real code it is evaluated by the search. *)
+   (Kept as an independent, computed confirmation of C19_roundtrip: here nothing is assumed about the state.) *)
 Theorem C19_roundtrip_partial :
   forall ops, In ops small_scope ->
     let s := snd (run ex_avc_parse ex_hevc_parse ops) in
@@ -495,3 +525,10 @@ Example C19_box_roundtrip_hyp :
   /\ exists b, body_leaf (LTkhd 0 7 0 0 3 0 0 0 256 83886080 47185920) (dflt_rsv (LTkhd 0 7 0 0 3 0 0 0 256 83886080 47185920)) = Ok b
               /\ lenN b = 84.
 Proof. split; [vm_compute; discriminate|]. split; [reflexivity|]. eexists. split; [reflexivity|]. vm_compute. reflexivity. Qed.
+
+(* the hypotheses of C19_roundtrip are satisfiable: the five-call history above (AVC + HEVC video, E-AC-3 audio) *)
+Example C19_roundtrip_hyp :
+  let s := snd (run ex_avc_parse ex_hevc_parse (nth 92 small_scope [])) in
+  args_okb s = true /\ match tree_of s with Some ts => forallb enc_fits ts | None => false end = true
+  /\ length (traks s) = 2%nat.
+Proof. vm_compute. repeat split; reflexivity. Qed.
